@@ -193,7 +193,7 @@ PROPS["C03"] = {
   "fact_files": ["httpgrpc/io.go", "httpgrpc/client.go", "httpgrpc/server.go", "inprocgrpc/in_process.go"],
   "trusted_base": _HS_TB + _IS_TB + ["net/http's treatment of header lines in transit (key canonicalisation, trimming of optional whitespace, rejection of control bytes) and Go's encoding/base64 (modelled concretely in Model/Metadata.lean and compared with the real functions on every run)",
                             "grpc metadata package (Join / Pairs / FromIncomingContext), grpc.SetHeader / SetTrailer / Header / Trailer call options"],
-  "partial": [              "HTTP: header/trailer transport (toHeaders / asMetadata) is proved for whole maps with any number of keys and values (C03_md_roundtrip); the X-GRPC-Trailer- split of unary replies and HttpTrailer.metadata are explored end to end; net/http's own header handling (canonicalisation, trimming) is external",
+  "partial": [              "HTTP: header/trailer transport (toHeaders / asMetadata) is proved for whole maps with any number of keys and values (C03_md_roundtrip); the X-GRPC-Trailer- split of unary replies is modelled and proved under the hypothesis that no header key lies under that prefix (C03_unary_trailer_split_roundtrip_partial; the hypothesis is needed: C03_unary_header_under_trailer_prefix_becomes_trailer, cf. known finding C02-F2/C14-F1) and compared with the real toHeaders/setMetadata on random maps; HttpTrailer.metadata is explored end to end; net/http's own header handling (canonicalisation, trimming) is external",
               "HTTP stream header state machine: modelled (HttpServerStream) with opaque metadata identities; the byte-level header codec is C03_md_roundtrip"],
   "level_text": "Proof: base64 of '-bin' values round-trips for EVERY byte string of any length (padding cases, 0x00/0x0A/0xFF) and emits only header-safe bytes (C03_b64_roundtrip, C03_b64_header_safe); encode and decode sites use the same variant (regenerated, C03_codec_sites); a key with any number of values survives toHeaders→asMetadata in order (C03_md_key_roundtrip); over the InprocStream system, for every reachable state with a live context: Header()/Trailer() are exactly the headers/trailers frames taken (C03_client_metadata_is_frames), when the client takes the handler's error frame — and when it sees the clean end — Trailer() already holds every trailer the handler set (C03_trailers_with_final_status, C03_success_has_all_trailers: at most one trailers frame, carrying all of SetTrailer's values, strictly before the error frame which is last), SetHeader/SendHeader after the headers went out fail (C03_set_header_after_send_fails, both state machines); over InprocUnary: nil from Invoke implies every header and trailer reached the call options, for every interleaving with cancellation (C03_unary_success_has_all_metadata). Frame orders regenerated (C03_frame_order_facts). Tie: unit comparison of the real toHeaders/asMetadata with the model; random metadata maps (repeated keys, multi-values set in two steps, '-bin' with arbitrary bytes) end to end on both transports, all RPC kinds, success and failure, duplicated call options; stream and unary scripts with header/trailer oracles." + _HS_TEXT + _HU_TEXT,
   "level_note": _IS_NOTE,
